@@ -177,6 +177,16 @@ static int dep_wipes_whole(size_t n) {
         VASSERT(dep_wipes_whole(obl_[a_]) >= need_, msg); \
     } } while (0)
 
+/* forget the call log (used after an arbitrary *earlier* API call: harnesses with a
+ * history prefix assert that the later call behaves as from a fresh library) */
+static void dep_reset_logs(void) {
+    L_rand_calls = 0; L_rand_ptr = NULL; L_rand_n = 0; L_time_calls = 0; L_kdf_calls = 0;
+    L_mz_calls = 0; L_alloc_calls = 0; L_free_calls = 0; L_foreign_free = 0;
+    L_nfc_calls = 0; L_nfkd_calls = 0; L_nfc_in = NULL; L_nfc_out = NULL; L_nfkd_in = NULL; L_nfkd_out = NULL;
+    L_seq = 0;
+    for (int b = 0; b < DEP_MAX_ALLOC; ++b) { L_blk[b].p = NULL; L_blk[b].n = 0; L_blk[b].live = false; L_blk[b].freed_times = 0; L_blk[b].wiped_before_free = 0; L_blk[b].free_seq = 0; }
+}
+
 static const polyseed_dependency DEP_TABLE = {
     .randbytes = dep_randbytes, .pbkdf2_sha256 = dep_pbkdf2, .memzero = dep_memzero,
     .u8_nfc = dep_nfc, .u8_nfkd = dep_nfkd, .time = dep_time, .alloc = dep_alloc, .free = dep_free,
